@@ -237,3 +237,41 @@ def craft_public_key_with_tag(target: int, flags: int, alg: int, rnd: Any, n_len
                 pk = bytes([3, 1, 0, 1]) + bytes(n)
                 assert rfc4034_key_tag(hdr + pk) == target
                 return pk
+
+
+def rsa_public_key_field(e: int, n_bytes: bytes) -> bytes:
+    """RFC 3110 public key field for exponent `e` and modulus octets `n_bytes`."""
+    eb = int_bytes(e)
+    hdr = bytes([len(eb)]) if len(eb) <= 255 else b"\x00" + len(eb).to_bytes(2, "big")
+    return hdr + eb + n_bytes
+
+
+def craft_modulus_with_acc(pred: Any, flags: int, alg: int, rnd: Any, n_len: int = 128, e: int = 65537) -> int:
+    """A random odd `n_len`-octet 'modulus' (top bit set — NOT a usable RSA key, public material only) such that the
+    RFC 4034 App. B accumulator `ac` (before folding) of the DNSKEY RDATA (flags, 3, alg, RFC 3110 key field with
+    exponent `e`) satisfies `pred(ac)`.  The last 16-bit word of the modulus is solved for, so any predicate that
+    holds for at least one odd last word in a few random attempts is met (key-tag boundaries: fold carry, REVOKE carry)."""
+    for _ in range(64):
+        n = bytearray(rnd.randbytes(n_len))
+        n[0] |= 0x80
+        n[-2] = n[-1] = 0
+        base = flags.to_bytes(2, "big") + bytes([3, alg]) + rsa_public_key_field(e, bytes(n))
+        if len(base) % 2:
+            raise ValueError("craft_modulus_with_acc: RDATA of odd length (the last modulus word must be 16-bit aligned)")
+        s0 = tag_accumulator(base)
+        start = rnd.randrange(1, 65536, 2)
+        for i in range(0, 65536, 2):
+            w = (start + i) % 65536
+            if pred(s0 + w):
+                n[-2], n[-1] = w >> 8, w & 0xFF
+                return int.from_bytes(bytes(n), "big")
+    raise RuntimeError("could not craft a modulus for the predicate")
+
+
+def public_only_key(n: int, e: int = 65537) -> TestKey:
+    """A TestKey carrying public RSA material only (d = 0): good for token objects that are read, never used to sign."""
+    return TestKey({"kind": "rsa", "bits": n.bit_length(), "e": hex(e), "n": hex(n), "d": "0x0"})
+
+
+def dnskey_rdata(tk: TestKey, flags: int, alg: int) -> bytes:
+    return flags.to_bytes(2, "big") + bytes([3, alg]) + tk.dnskey_public_key()
